@@ -1,25 +1,385 @@
-"""Loops over sequences of unknown length: inductive invariants from the sidecar; folds for sum()."""
+"""Loops over sequences of unknown length: inductive invariants from the sidecar; folds (sum) as spec functions.
+
+A fold  F(m) = sum_{j<m} body(j)  is an uninterpreted function Int -> Real with the one-step unfolding
+F(0) = 0,  F(m+1) = F(m) + body(m)  instantiated (never quantified) at every index the proof mentions.
+Two folds over the same sequence are related by the extensionality lemma
+   (forall j in [0,n): b1(j) = b2(j))  =>  forall m in [0,n]: F1(m) = F2(m)
+whose schema is proved by induction once per run (lemmas.py) and then assumed per pair.
+"""
 import ast
+import types
+
 import z3
 
 from . import z as Z
 from .engine import *
+from .contracts import Spec, N, SeqView, ObjView, Loop, _b
+
+
+# ------------------------------------------------------------------------------------------ folds
+class Fold:
+    def __init__(self, ctx, key, n, body_fn, intflag):
+        self.ctx, self.key, self.n, self.body_fn = ctx, key, n, body_fn
+        self.F = z3.Function("fold!%d" % len(ctx.ghost.setdefault("folds", {})), z3.IntSort(), z3.RealSort())
+        self.done = set()
+        self.intflag = intflag  # z3 Bool: every element is an int (then the Python sum is an int)
+        ctx.assume(self.F(z3.IntVal(0)) == 0)
+
+    def unfold(self, k):
+        """instantiate F(k+1) = F(k) + body(k) for 0 <= k < n"""
+        k = z3.simplify(k)
+        s = k.sexpr()
+        if s in self.done:
+            return
+        self.done.add(s)
+        self.ctx.assume(z3.Implies(z3.And(k >= 0, k < self.n), self.F(k + 1) == self.F(k) + self.body_fn(k)))
+
+    def upto(self, k):
+        """spec value sum_{j<k} body(j); mentions of k unfold one step on both sides of k"""
+        if isinstance(k, int):
+            k = z3.IntVal(k)
+        self.unfold(k)
+        self.unfold(k - 1)
+        return N(Z.mk_flt(self.F(k)))
+
+    def total(self):
+        return self.upto(self.n)
+
+
+def get_fold(ctx, n, body_fn, intflag=None):
+    """canonical fold for body_fn over [0,n): same body term => same function symbol"""
+    v = z3.Int("foldvar")
+    key = (z3.simplify(body_fn(v)).sexpr(), z3.simplify(n).sexpr())
+    folds = ctx.ghost.setdefault("folds", {})
+    if key in folds:
+        return folds[key]
+    f = Fold(ctx, key, n, body_fn, intflag)
+    # extensionality against every earlier fold over a range of the same length
+    j, m = z3.Ints("extj extm")
+    for other in folds.values():
+        if other.key[1] != key[1]:
+            continue
+        same = z3.ForAll([j], z3.Implies(z3.And(0 <= j, j < n), f.body_fn(j) == other.body_fn(j)))
+        ctx.assume(z3.Implies(same, z3.ForAll([m], z3.Implies(z3.And(0 <= m, m <= n), f.F(m) == other.F(m)))))
+        ctx.note("lemma fold-extensionality used (schema proved by induction in the lemma run)")
+    folds[key] = f
+    return f
+
+
+def spec_sum(spec, seq, fn):
+    """c.sum(seq, lambda x: x.field): the fold of a numeric field expression over a heap sequence, as a Fold"""
+    ctx = spec.ctx
+
+    def body(j):
+        return fn(seq[j]).r
+
+    return get_fold(ctx, seq.len, body)
+
+
+Spec.sum = spec_sum
+
+
+# ------------------------------------------------------------------------------------------ loop specs
+def find_loop_spec(I, frame, ordinal):
+    fi = frame.fi
+    con = I.E.contracts.get(fi.key) if fi is not None else None
+    if con is None and I.ctx.top_contract is not None and fi is not None and fi.key == I.ctx.top_contract.key:
+        con = I.ctx.top_contract
+    if con is None or ordinal not in con.loops:
+        return None
+    return con.loops[ordinal]
+
+
+def assigned_names(stmts, target=None):
+    names = []
+    for st in stmts:
+        for node in ast.walk(st):
+            if isinstance(node, ast.Name) and isinstance(node.ctx, ast.Store) and node.id not in names:
+                names.append(node.id)
+    if target is not None:
+        for node in ast.walk(target):
+            if isinstance(node, ast.Name) and node.id not in names:
+                names.append(node.id)
+    return names
+
+
+class Locals:
+    """namespace of spec views of the frame's locals"""
+
+    def __init__(self, spec, frame, heap):
+        object.__setattr__(self, "_d", {k: spec.view(v, heap) for k, v in frame.locals.items()})
+        object.__setattr__(self, "_raw", frame.locals)
+
+    def __getattr__(self, k):
+        try:
+            return self._d[k]
+        except KeyError:
+            raise AttributeError(k)
+
+    def raw(self, k):
+        return self._raw[k]
+
+
+def eval_inv(I, loop, entry_heap, frame, i, seq, tr_entry):
+    ctx = I.ctx
+    spec = Spec(ctx, entry_heap, ctx.snapshot())
+    spec.tr, spec.trlen, spec.tr_old_len = ctx.tr, ctx.trlen, tr_entry
+    if seq is not None:
+        spec.seq = spec.view(seq, spec.new_heap)
+    L = Locals(spec, frame, spec.new_heap)
+    r = loop.inv(spec, L, i)
+    if isinstance(r, dict):
+        return {k: _b(v) for k, v in r.items()}
+    if isinstance(r, (list, tuple)):
+        return {str(k): _b(v) for k, v in enumerate(r)}
+    return {"0": _b(r)}
+
+
+def havoc_loop(I, loop, frame, names, entry_heap, seq):
+    ctx = I.ctx
+    for nm in names:
+        if nm in frame.locals:
+            cur = frame.locals[nm]
+            ty = loop.local_types.get(nm) or (cur.ty if isinstance(cur, SV) else None)
+            if ty is None and not isinstance(cur, SV):
+                cur_sv = None
+                try:
+                    cur_sv = ctx.to_val(cur)
+                    ty = cur_sv.ty
+                except Unsupported:
+                    raise Unsupported("loop modifies local %s holding an engine-level value" % nm)
+            t = fresh_val("l_" + nm)
+            frame.locals[nm] = ctx.typed(t, ty)
+        elif nm in loop.local_types:
+            frame.locals[nm] = ctx.typed(fresh_val("l_" + nm), loop.local_types[nm])
+    if loop.modifies is not None:
+        spec = Spec(ctx, entry_heap, entry_heap)
+        if seq is not None:
+            spec.seq = spec.view(seq, entry_heap)
+        L = Locals(spec, frame, entry_heap)
+        for w in loop.modifies(spec, L):
+            if w[0] == "all":
+                _, fname, pred = w
+                old = ctx.field_array(fname)
+                new = fresh("H_%s" % fname, old.sort())
+                x = z3.Int("wx")
+                ctx.assume(z3.ForAll([x], z3.Implies(z3.Not(pred(x)), z3.Select(new, x) == z3.Select(old, x))))
+                ctx.heap[fname] = new
+            elif w[0] == "trace":
+                ntr, nlen = fresh("tr", EvArr), fresh("trlen", z3.IntSort())
+                k = z3.Int("tk")
+                ctx.assume(nlen >= ctx.trlen)
+                ctx.assume(z3.ForAll([k], z3.Implies(z3.And(0 <= k, k < ctx.trlen), z3.Select(ntr, k) == z3.Select(ctx.tr, k))))
+                ctx.tr, ctx.trlen = ntr, nlen
+            else:
+                objv, fname = w
+                sort = ctx.field_array(fname).sort().range()
+                ctx.heap[fname] = z3.Store(ctx.field_array(fname), objv.id, fresh("w_%s" % fname, sort))
+    ctx.ghost["havocked"] = True
+    ctx.events = None
+
+
+def loop_name(frame, ordinal):
+    from .calls import short
+
+    return "%s/loop%d" % (short(frame.fi.key), ordinal)
 
 
 def symbolic_for(I, frame, s, it, ordinal):
-    raise Unsupported("for loop over a sequence of unknown length (ordinal %d)" % ordinal)
+    ctx = I.ctx
+    loop = find_loop_spec(I, frame, ordinal)
+    if loop is None:
+        raise Unsupported("for loop %d of %s over a sequence of unknown length has no invariant" % (ordinal, frame.fi.key if frame.fi else "?"))
+    if not (isinstance(it, SV) and isinstance(it.ty, TSeq)):
+        raise Unsupported("for loop over %r" % (it,))
+    name = loop_name(frame, ordinal)
+    n = z3.Select(ctx.field_array("$len"), ctx.ref_id(it))
+    ctx.assume(n >= 0)
+    entry_heap = ctx.snapshot()
+    tr_entry = ctx.trlen
+    for lab, f in eval_inv(I, loop, entry_heap, frame, z3.IntVal(0), it, tr_entry).items():
+        ctx.oblige("%s/init[%s]" % (name, lab), f, kind="loop")
+    names = assigned_names(s.body, s.target)
+    havoc_loop(I, loop, frame, names, entry_heap, it)
+    i = fresh("i", z3.IntSort())
+    ctx.assume(z3.And(0 <= i, i <= n))
+    for lab, f in eval_inv(I, loop, entry_heap, frame, i, it, tr_entry).items():
+        ctx.assume(f)
+    if ctx.branch(i < n, "loop%d-iterate" % ordinal):
+        from .builtins_ import seq_item
+
+        I.assign(frame, s.target, seq_item(I, it, i))
+        try:
+            I.exec_block(frame, s.body)
+        except ContinueSig:
+            pass
+        except BreakSig:
+            return
+        for lab, f in eval_inv(I, loop, entry_heap, frame, i + 1, it, tr_entry).items():
+            ctx.oblige("%s/preserve[%s]" % (name, lab), f, kind="loop")
+        raise PathEnd()
+    ctx.assume(i == n)
+    I.exec_block(frame, s.orelse)
 
 
 def symbolic_while(I, frame, s, ordinal):
-    raise Unsupported("while loop (ordinal %d)" % ordinal)
+    ctx = I.ctx
+    loop = find_loop_spec(I, frame, ordinal)
+    if loop is None:
+        raise Unsupported("while loop %d of %s has no invariant" % (ordinal, frame.fi.key if frame.fi else "?"))
+    name = loop_name(frame, ordinal)
+    entry_heap = ctx.snapshot()
+    tr_entry = ctx.trlen
+    for lab, f in eval_inv(I, loop, entry_heap, frame, z3.IntVal(0), None, tr_entry).items():
+        ctx.oblige("%s/init[%s]" % (name, lab), f, kind="loop")
+    names = assigned_names(s.body)
+    havoc_loop(I, loop, frame, names, entry_heap, None)
+    k = fresh("iter", z3.IntSort())  # number of completed iterations
+    ctx.assume(k >= 0)
+    for lab, f in eval_inv(I, loop, entry_heap, frame, k, None, tr_entry).items():
+        ctx.assume(f)
+    if I.cond(frame, s.test):
+        iter_heap = ctx.snapshot()
+        iter_tr = ctx.trlen
+        iter_locals = dict(frame.locals)
+        dec0 = None
+        if loop.decreases is not None:
+            spec = Spec(ctx, entry_heap, ctx.snapshot())
+            dec0 = loop.decreases(spec, Locals(spec, frame, spec.new_heap))
+        try:
+            I.exec_block(frame, s.body)
+        except ContinueSig:
+            pass
+        except BreakSig:
+            return
+        for lab, f in eval_inv(I, loop, entry_heap, frame, k + 1, None, tr_entry).items():
+            ctx.oblige("%s/preserve[%s]" % (name, lab), f, kind="loop")
+        if loop.step is not None:
+            spec = Spec(ctx, iter_heap, ctx.snapshot())
+            spec.tr, spec.trlen, spec.tr_old_len = ctx.tr, ctx.trlen, iter_tr
+            fr0 = types.SimpleNamespace(locals=iter_locals)
+            r = loop.step(spec, Locals(spec, frame, spec.new_heap), Locals(spec, fr0, iter_heap))
+            for lab, f in r.items():
+                ctx.oblige("%s/iteration[%s]" % (name, lab), _b(f), kind="loop")
+        if loop.decreases is not None:
+            spec = Spec(ctx, entry_heap, ctx.snapshot())
+            dec1 = loop.decreases(spec, Locals(spec, frame, spec.new_heap))
+            ctx.oblige("%s/decreases" % name, z3.And(dec0.r >= 0, dec1.r < dec0.r) if isinstance(dec0, N) else z3.And(dec0 >= 0, dec1 < dec0), kind="loop")
+        raise PathEnd()
+    I.exec_block(frame, s.orelse)
+
+
+# ------------------------------------------------------------------------------------------ sum / all / any / comprehensions
+def _single_gen(I, g):
+    node = g.node
+    if len(node.generators) != 1 or node.generators[0].is_async:
+        raise Unsupported("generator expression with several/async clauses over a sequence of unknown length")
+    gen = node.generators[0]
+    fr = Frame(g.frame.fi, dict(g.frame.locals), g.frame.closure_env, g.frame.module)
+    fr.cls_ctx = g.frame.cls_ctx
+    seq = I.eval(fr, gen.iter)
+    seq = I.ctx.from_val(seq) if isinstance(seq, SV) else seq
+    if not (isinstance(seq, SV) and isinstance(seq.ty, TSeq)):
+        raise Unsupported("generator over %r" % (seq,))
+    return gen, fr, seq
+
+
+def _pure_eval(I, fr, gen, seq, expr, j):
+    """evaluate expr with the loop target bound to seq[j]; must be pure and deterministic"""
+    from .builtins_ import seq_item
+
+    ctx = I.ctx
+    heap_before = dict(ctx.heap)
+    ndec = len(ctx.decisions)
+    trlen = ctx.trlen
+    I.assign(fr, gen.target, seq_item(I, seq, j))
+    v = I.eval(fr, expr)
+    if len(ctx.decisions) != ndec:
+        raise Unsupported("element expression of a fold forks on its data")
+    if any(not ctx.heap[k].eq(heap_before.get(k, ctx.heap[k])) for k in ctx.heap if k in heap_before) or not (ctx.trlen is trlen or ctx.trlen.eq(trlen)):
+        raise Unsupported("element expression of a fold has side effects")
+    return v
 
 
 def symbolic_sum(I, it, start):
-    raise Unsupported("sum() over a sequence of unknown length")
+    ctx = I.ctx
+    if not isinstance(it, GenExpT()):
+        raise Unsupported("sum() over %r" % (it,))
+    gen, fr, seq = _single_gen(I, it)
+    if gen.ifs:
+        raise Unsupported("filtered sum over a sequence of unknown length")
+    n = z3.Select(ctx.field_array("$len"), ctx.ref_id(seq))
+    ctx.assume(n >= 0)
+    j = fresh("j", z3.IntSort())
+    # the element expression is evaluated once for a generic index j in [0, n)
+    ctx.solver.push()
+    saved_pc = list(ctx.pc)
+    ctx.assume(z3.And(0 <= j, j < n))
+    try:
+        v = _pure_eval(I, fr, gen, seq, it.node.elt, j)
+        sv = I.num_operand(v)
+        learned = ctx.pc[len(saved_pc) + 1 :]
+    finally:
+        ctx.solver.pop()
+        ctx.pc = saved_pc
+    # facts learned about the generic element (shape invariants of loaded fields) hold for every index
+    if learned:
+        ctx.assume(z3.ForAll([j], z3.Implies(z3.And(0 <= j, j < n), z3.And(*learned))))
+    term = sv.t
+
+    def body(k):
+        return Z.rval(z3.substitute(term, (j, k)))
+
+    f = get_fold(ctx, n, body)
+    f.unfold(n - 1)
+    f.unfold(z3.IntVal(0))
+    total = f.F(n)
+    # a sum is finite here (elements finite by shape); its int-ness is left open unless start decides it
+    allint = fresh("sum_is_int", z3.BoolSort())
+    res = SV(Z.mk_num(allint, total), TNum())
+    ctx.assume(z3.ForAll([j], z3.Implies(z3.And(0 <= j, j < n), Z.is_finite(z3.substitute(term, (j, j))))))
+    if isinstance(start, int) and start == 0:
+        # sum of zero elements is the int 0
+        ctx.assume(z3.Implies(n == 0, allint))
+        return res
+    return I.binop(ast.Add(), start, res)
+
+
+def GenExpT():
+    from .interp import GenExp
+
+    return GenExp
 
 
 def symbolic_all_any(I, it, is_all):
-    raise Unsupported("all()/any() over a sequence of unknown length")
+    ctx = I.ctx
+    if not isinstance(it, GenExpT()):
+        raise Unsupported("all()/any() over %r" % (it,))
+    gen, fr, seq = _single_gen(I, it)
+    if gen.ifs:
+        raise Unsupported("filtered all/any")
+    n = z3.Select(ctx.field_array("$len"), ctx.ref_id(seq))
+    j = fresh("j", z3.IntSort())
+    ctx.solver.push()
+    saved_pc = list(ctx.pc)
+    ctx.assume(z3.And(0 <= j, j < n))
+    try:
+        v = _pure_eval(I, fr, gen, seq, it.node.elt, j)
+        t = ctx.truth(v)
+        learned = ctx.pc[len(saved_pc) + 1 :]
+    finally:
+        ctx.solver.pop()
+        ctx.pc = saved_pc
+    if learned:
+        ctx.assume(z3.ForAll([j], z3.Implies(z3.And(0 <= j, j < n), z3.And(*learned))))
+    t = z3.BoolVal(t) if isinstance(t, bool) else t
+    k = z3.Int("aak")
+    body = z3.substitute(t, (j, k))
+    if is_all:
+        f = z3.ForAll([k], z3.Implies(z3.And(0 <= k, k < n), body))
+    else:
+        f = z3.Exists([k], z3.And(0 <= k, k < n, body))
+    return SV(Z.mk_bool(f), TBool())
 
 
 def symbolic_comprehension(I, g, kind):
@@ -27,4 +387,11 @@ def symbolic_comprehension(I, g, kind):
 
 
 def copy_seq(I, v, kind):
-    raise Unsupported("list() of a sequence of unknown length")
+    """list(seq) / tuple(seq): a fresh sequence object with the same items"""
+    ctx = I.ctx
+    if not (isinstance(v, SV) and isinstance(v.ty, TSeq)):
+        raise Unsupported("list() of %r" % (v,))
+    new = ctx.alloc(None, TSeq(v.ty.elem, kind))
+    ctx.store_raw(ctx.ref_id(new), "$len", z3.Select(ctx.field_array("$len"), ctx.ref_id(v)))
+    ctx.store_raw(ctx.ref_id(new), "$item", z3.Select(ctx.field_array("$item"), ctx.ref_id(v)))
+    return new
